@@ -297,6 +297,14 @@ def check_who_may_call(model, rep):
             if (ev_ and (a_ or b_)) or st['evaluated'] > 1 or (st['fallback'] > 0) != (not ev_ or c_):
                 wrong = wrong or (a_, b_, c_, st)
     except _Unknown as e:
+        # a test over the block ids / the dependents count that is not an order comparison of exactly these quantities (e.g. of their lengths) is
+        # not the decision the protocol needs; anything else the rule does not understand is an analysis error
+        t_ = str(e)
+        if any(k_ in t_ for k_ in ('evaluable_block_id', 'out_block_id', 'self.ndependents')):
+            rep.ob('R02.3', b.key, b.where(), False, f'the escape decision of compile_with_out tests `{t_[:80]}`: the in-place protocol may be entered only when the term has a single dependent '
+                   '(self.ndependents[evaluable] <= 1) and is not placed before the destination (evaluable_block_id >= out_block_id, compared as block ids); another test over these quantities decides something else',
+                   statement='escape-order')
+            return
         raise AnalysisError(f'_BlockTreeBuilder.compile_with_out: the escape test was not found (unrecognised test `{e}`)')
     # the fallback: the statement list that holds `... = self.compile(evaluable)` (the body of the escape test, or the rest of the function after an early return)
     def holder(stmts):
